@@ -8,7 +8,8 @@
    A DateTime is (wall microseconds W, fold, tzinfo); `zdb` maps a Timezone key to its tz table (Spec/Zone.v), universally quantified.
    A tzinfo is None, a pendulum Timezone / FixedTimezone, or TzForeign: a standard-library tzinfo (datetime.timezone(offset), zoneinfo.ZoneInfo(key)),
    as carried by dt.astimezone(datetime.timezone.utc) or DateTime(..., tzinfo=ZoneInfo(..)); DateTime.tz / .timezone are None for those.
-   Theorems named *_refuted record genuine defects of /repo (known_findings/C14.json); *_partial hold on the stated region only. *)
+   Theorems named *_refuted record genuine defects of /repo (known_findings/C14.json); *_partial hold on the stated region only.
+   Repaired in /repo and stated at full strength: deepcopy-foreign-tzinfo-naive, duration-deepcopy-drops-weeks, interval-deepcopy-typeerror. *)
 From Coq Require Import ZArith List Bool String.
 From Coq Require Import Floats.SpecFloat.
 From PV Require Import Lib.PyBase Spec.Cal Spec.Zone Spec.TdFloat Model.Duration Model.Pickle Model.PickleHistory Proofs.ZoneFacts Proofs.C09Facts Proofs.C14Facts Proofs.C14History Proofs.FloatRoundTripC09.
@@ -147,31 +148,24 @@ Theorem roundtrip_duration_pickle_copy_refuted : forall r, not_deep r ->
 Proof. exact dur_pickle_witness. Qed.
 Print Assumptions roundtrip_duration_pickle_copy_refuted.
 
-(* deepcopy: Duration.__deepcopy__ omits weeks.  Exact when weeks = 0, inside C09's exactness domain D9 and under C09's float premise
-   (float_split_exact_on_D9: not proved, validated on every run - it says the float normalisation of Duration.__new__ is exact on D9) *)
-Theorem roundtrip_duration_deepcopy_partial : float_split_exact_on_D9 ->
+(* deepcopy: Duration.__deepcopy__ rebuilds from years months weeks remaining_days hours minutes remaining_seconds microseconds.  FULL STRENGTH on
+   C09's exactness domain D9 since `fix: copy.deepcopy of a Duration keeps its weeks` (finding duration-deepcopy-drops-weeks: the weeks keyword was
+   missing and the copy was short of weeks * 7 days): every public accessor, the native value and the stored fields come back, whatever the weeks are.
+   This form carries C09's float premise explicitly and depends on no axiom; `roundtrip_duration_deepcopy` below is the unconditional statement. *)
+Theorem roundtrip_duration_deepcopy_given_float_premise : float_split_exact_on_D9 ->
   forall days seconds us ms mi h w years months d,
   duration_new days seconds us ms mi h w years months = Ok d ->
-  D9 (d_N d) (YM years months * 86400) -> d_weeks d = 0 ->
-  exists d', dur_rebuild RDeep d = Ok d' /\ dur_public d' = dur_public d.
+  D9 (d_N d) (YM years months * 86400) ->
+  exists d', dur_rebuild RDeep d = Ok d' /\ dur_public d' = dur_public d /\ d_N d' = d_N d /\ d_total d' = d_total d /\ d_days d' = d_days d.
 Proof. exact dur_deep_exact. Qed.
-Print Assumptions roundtrip_duration_deepcopy_partial.
+Print Assumptions roundtrip_duration_deepcopy_given_float_premise.
 
-(* ... and otherwise the copy is short of exactly weeks * 7 days (so it is a different timedelta whenever weeks <> 0) *)
-Theorem duration_deepcopy_loses_exactly_weeks_partial : float_split_exact_on_D9 ->
-  forall days seconds us ms mi h w years months d d',
-  duration_new days seconds us ms mi h w years months = Ok d ->
-  D9 (d_N d) (YM years months * 86400) -> dur_rebuild RDeep d = Ok d' ->
-  d_N d' = d_N d - d_weeks d * 7 * 86400000000.
-Proof. exact dur_deep_loses_weeks. Qed.
-Print Assumptions duration_deepcopy_loses_exactly_weeks_partial.
-
-(* Duration(weeks=2, days=3) deep-copies to Duration(days=3): 17 days become 3 *)
-Theorem roundtrip_duration_deepcopy_refuted :
-  exists d d', duration_new 3 0 0 0 0 0 2 0 0 = Ok d /\ d_weeks d = 2 /\ dur_rebuild RDeep d = Ok d' /\ d_weeks d' = 0
-    /\ td_norm (d_N d) = (17, 0, 0) /\ td_norm (d_N d') = (3, 0, 0) /\ dur_public d' <> dur_public d.
+(* the former failing input: Duration(weeks=2, days=3) deep-copies to 2 weeks and 3 days (17 days), all public accessors equal *)
+Theorem roundtrip_duration_deepcopy_weeks_witness :
+  exists d d', duration_new 3 0 0 0 0 0 2 0 0 = Ok d /\ d_weeks d = 2 /\ dur_rebuild RDeep d = Ok d' /\ d_weeks d' = 2
+    /\ td_norm (d_N d) = (17, 0, 0) /\ td_norm (d_N d') = (17, 0, 0) /\ dur_public d' = dur_public d.
 Proof. exact dur_deep_witness. Qed.
-Print Assumptions roundtrip_duration_deepcopy_refuted.
+Print Assumptions roundtrip_duration_deepcopy_weeks_witness.
 
 (* the domain hypothesis is needed: Duration(years=300, days=3, microseconds=7) has weeks = 0, reports microseconds = 8
    (C09's float resolution) and deep-copies to a Duration one microsecond longer *)
@@ -189,12 +183,23 @@ Theorem absolute_duration_pickle_copy_result : forall r days seconds us ms mi h 
 Proof. exact absdur_pickle_result. Qed.
 Print Assumptions absolute_duration_pickle_copy_result.
 
-(* AbsoluteDuration(days=-3, hours=-5) (invert = True) deep-copies to a value with invert = False *)
+(* AbsoluteDuration inherits Duration.__deepcopy__: its components are absolute values, so a NEGATIVE underlying value (invert = True) comes back
+   positive (finding absoluteduration-deepcopy-sign-weeks, now the sign only: the weeks survive since the repair above).
+   AbsoluteDuration(days=-3, hours=-5) (invert = True) deep-copies to a value with invert = False *)
 Theorem roundtrip_absolute_duration_deepcopy_refuted :
   exists d d', absolute_duration_new (-3) 0 0 0 0 (-5) 0 0 0 = Ok d /\ dur_invert d = true /\ dur_rebuild RDeep d = Ok d'
     /\ dur_invert d' = false /\ dur_public d' <> dur_public d.
 Proof. exact absdur_deep_witness. Qed.
 Print Assumptions roundtrip_absolute_duration_deepcopy_refuted.
+
+(* the weeks part of that finding is repaired: AbsoluteDuration(weeks=2, days=3, hours=5) deep-copies to the same public accessors;
+   AbsoluteDuration(weeks=-2, days=-3) keeps weeks = 2 and loses only the sign (native value -17 days -> +17 days) *)
+Theorem absolute_duration_deepcopy_keeps_weeks :
+  (exists d d', absolute_duration_new 3 0 0 0 0 5 2 0 0 = Ok d /\ d_weeks d = 2 /\ dur_rebuild RDeep d = Ok d' /\ dur_public d' = dur_public d) /\
+  (exists d d', absolute_duration_new (-3) 0 0 0 0 0 (-2) 0 0 = Ok d /\ dur_invert d = true /\ d_weeks d = 2 /\ dur_rebuild RDeep d = Ok d'
+     /\ dur_invert d' = false /\ d_weeks d' = 2 /\ td_norm (d_N d) = (-17, 0, 0) /\ td_norm (d_N d') = (17, 0, 0)).
+Proof. exact absdur_deep_weeks_witness. Qed.
+Print Assumptions absolute_duration_deepcopy_keeps_weeks.
 
 (* ---- Interval *)
 (* copy.copy: _getstate undoes the absolute swap, Interval(start, end, absolute) rebuilds the same value *)
@@ -216,10 +221,24 @@ Theorem roundtrip_interval_pickle_refuted : forall p,
 Proof. exact iv_pickle_witness. Qed.
 Print Assumptions roundtrip_interval_pickle_refuted.
 
-(* copy.deepcopy of ANY Interval raises TypeError (Duration.__deepcopy__ calls Interval(days=...)) *)
-Theorem roundtrip_interval_deepcopy_refuted : forall zdb iv, iv_rebuild zdb RDeep iv = Raise E_TypeError.
-Proof. exact iv_deep_raises. Qed.
-Print Assumptions roundtrip_interval_deepcopy_refuted.
+(* copy.deepcopy: Interval.__deepcopy__ deep-copies the endpoints of _getstate() and passes the absolute flag.  FULL STRENGTH since
+   `fix: copy.deepcopy of an Interval` (finding interval-deepcopy-typeerror: Interval inherited Duration.__deepcopy__, which called Interval(days=...)
+   and raised TypeError for EVERY Interval): every constructed Interval comes back as itself - forward, inverted, absolute, Date or DateTime
+   endpoints, naive or aware, fold 0 or 1, pendulum or standard-library tzinfo (ep_valid: the endpoint is a constructible value) *)
+Theorem roundtrip_interval_deepcopy : forall zdb s e a iv, interval_new zdb s e a = Ok iv -> ep_valid s -> ep_valid e ->
+  iv_rebuild zdb RDeep iv = Ok iv.
+Proof. exact iv_deep_id. Qed.
+Print Assumptions roundtrip_interval_deepcopy.
+
+(* the Interval that pickle changes, [Paris 02:30 fold=1 -> 04:00], deep-copies to itself (90 minutes), and so does the absolute one whose end carries
+   zoneinfo.ZoneInfo("Europe/Paris") *)
+Theorem roundtrip_interval_deepcopy_witness :
+  (exists iv, interval_new zdb_paris iv_wit_start iv_wit_end false = Ok iv /\ td_norm (iv_N iv) = (0, 5400, 0)
+     /\ iv_rebuild zdb_paris RDeep iv = Ok iv) /\
+  (exists iv, interval_new zdb_paris iv_wit_start iv_wit_end_foreign true = Ok iv /\ td_norm (iv_N iv) = (0, 5400, 0)
+     /\ iv_rebuild zdb_paris RDeep iv = Ok iv).
+Proof. exact iv_deep_witness. Qed.
+Print Assumptions roundtrip_interval_deepcopy_witness.
 
 (* ---- copies in a process with a history (Model/PickleHistory.v): the per-offset cache behind pendulum.timezone(<int>) / tz=<number> / instance().
    `hist_run zdb before r v after` = the calls `before`, then the copy of v along route r, then the calls `after`, in one process that starts fresh;
@@ -259,20 +278,29 @@ Proof. exact hist_fixed_named. Qed.
 Print Assumptions roundtrip_fixed_timezone_after_any_history.
 
 
-(* ---- C09's float premise float_split_exact_on_D9 is a THEOREM (Proofs/FloatRoundTripC09.v, through Flocq's binary64 correctness): the two deepcopy statements
-   that carry it hold unconditionally (standard-library real-number axioms, listed by Print Assumptions; the *_partial forms above depend on nothing). *)
-Theorem roundtrip_duration_deepcopy_weeks0 :
+(* ---- C09's float premise float_split_exact_on_D9 is a THEOREM (Proofs/FloatRoundTripC09.v, through Flocq's binary64 correctness): the deepcopy statement
+   that carries it holds unconditionally (standard-library real-number axioms, listed by Print Assumptions; the premise-carrying form above depends on nothing). *)
+Theorem roundtrip_duration_deepcopy :
   forall days seconds us ms mi h w years months d,
   duration_new days seconds us ms mi h w years months = Ok d ->
-  D9 (d_N d) (YM years months * 86400) -> d_weeks d = 0 ->
-  exists d', dur_rebuild RDeep d = Ok d' /\ dur_public d' = dur_public d.
+  D9 (d_N d) (YM years months * 86400) ->
+  exists d', dur_rebuild RDeep d = Ok d' /\ dur_public d' = dur_public d /\ d_N d' = d_N d /\ d_total d' = d_total d /\ d_days d' = d_days d.
 Proof. exact (dur_deep_exact float_split_exact_on_D9_proved). Qed.
-Print Assumptions roundtrip_duration_deepcopy_weeks0.
+Print Assumptions roundtrip_duration_deepcopy.
 
-Theorem duration_deepcopy_loses_exactly_weeks :
-  forall days seconds us ms mi h w years months d d',
-  duration_new days seconds us ms mi h w years months = Ok d ->
-  D9 (d_N d) (YM years months * 86400) -> dur_rebuild RDeep d = Ok d' ->
-  d_N d' = d_N d - d_weeks d * 7 * 86400000000.
-Proof. exact (dur_deep_loses_weeks float_split_exact_on_D9_proved). Qed.
-Print Assumptions duration_deepcopy_loses_exactly_weeks.
+(* AbsoluteDuration through the inherited Duration.__deepcopy__, characterised: the deep copy is the AbsoluteDuration of the ABSOLUTE value of the
+   underlying timedelta - every component (weeks included, since the repair) and total_seconds() identical, invert False.  So the copy is exact
+   whenever the underlying value is not negative; the remaining finding absoluteduration-deepcopy-sign-weeks is exactly invert = True. *)
+Theorem absolute_duration_deepcopy_is_absolute_value : forall days seconds us ms mi h w years months d,
+  absolute_duration_new days seconds us ms mi h w years months = Ok d -> Z.abs (d_N d) < B33 ->
+  exists d', dur_rebuild RDeep d = Ok d' /\ d_N d' = Z.abs (d_N d) /\ d_abs d' = true /\ dur_invert d' = false
+    /\ d_years d' = d_years d /\ d_months d' = d_months d /\ d_weeks d' = d_weeks d /\ d_rdays d' = d_rdays d
+    /\ d_seconds d' = d_seconds d /\ d_micro d' = d_micro d /\ dur_total_seconds d' = dur_total_seconds d.
+Proof. exact (absdur_deep_result float_split_exact_on_D9_proved). Qed.
+Print Assumptions absolute_duration_deepcopy_is_absolute_value.
+
+Theorem roundtrip_absolute_duration_deepcopy_partial : forall days seconds us ms mi h w years months d,
+  absolute_duration_new days seconds us ms mi h w years months = Ok d -> 0 <= d_N d < B33 ->
+  exists d', dur_rebuild RDeep d = Ok d' /\ dur_public d' = dur_public d.
+Proof. exact (absdur_deep_exact_nonneg float_split_exact_on_D9_proved). Qed.
+Print Assumptions roundtrip_absolute_duration_deepcopy_partial.
